@@ -330,8 +330,7 @@ func (w *WAL) newSegment(ID, baseIndex uint64) types.SegmentInfo {
 		MinIndex:  baseIndex,
 		SizeLimit: uint32(w.segmentSize),
 
-		// TODO make these configurable
-		Codec:      CodecBinaryV1,
+		Codec:      w.codec.ID(),
 		CreateTime: time.Now(),
 	}
 }
